@@ -44,7 +44,7 @@ var (
 var literalPieces = []string{"/", "/a", "/b", "/ab", "/abc", "/users", "/posts", "/x", "-", ".", ".html", "/v1", "1", "2", "a", "aa", "b", "/a/", "/b/", "/users/", "/posts/", "/p/"}
 
 var namedTokens = []string{"{id}", "{name}", "{n}", "{-id}", "{x}", "{action}", "{page}", "{na}", "{-n}"}
-var rxTokens = []string{`{id:\d+}`, `{x:\d}`, `{x:\d+}`, `{w:\w+}`, `{p:.+}`, `{p:.*}`, `{s:[a-z]+}`, `{-r:\d+}`, `{c:a|ab}`, `{page:\d+}`, `{y:[0-9]+}`, `{z:\d*}`, `{q:(a|b)c}`, `{t:[^/]+}`}
+var rxTokens = []string{`{id:\d+}`, `{x:\d}`, `{x:\d+}`, `{w:\w+}`, `{p:.+}`, `{p:.*}`, `{s:[a-z]+}`, `{-r:\d+}`, `{c:a|ab}`, `{page:\d+}`, `{y:[0-9]+}`, `{z:\d*}`, `{q:(a|b)c}`, `{t:[^/]+}`, `{-g:(a|b)c}`, `{-k:(x|y)\d+}`, `{-o:(ab)?c}`, `{m:(a|b)\d}`}
 var icTokens = []string{"{id:digit}", "{w:word}", "{a:any}", "{e:even}", "{s:starta}", "{-d:digit}", "{t:all}", "{f:none}"}
 var suffixes = []string{"", "/", "/log", "/abc", "/author", ".html", "aa", "-", "/a", "/ab", ".", "+", "(", "/x"}
 
@@ -159,8 +159,8 @@ var malformed = []string{"/{a{b}x", "/{a{}}y", "{abc{d}/x", "{abc{ee}/y", "", "{
 
 // ---- paths ---------------------------------------------------------------------------------
 
-var simpleValues = []string{"5", "7", "42", "z", "zq", "Q9", "k"}
-var trickyValues = []string{"", "a", "aa", "aaa", "abc", "a/b", "1/2", "x.html", "1a", "a1", "-", ".", "/", "ab", "b", "9", "12", "é", "\xff", "lo", "log"}
+var simpleValues = []string{"5", "7", "42", "z", "zq", "Q9", "k", "ac", "x1", "bc"}
+var trickyValues = []string{"ac", "bc", "x1", "y22", "c", "abc", "a1", "", "a", "aa", "aaa", "abc", "a/b", "1/2", "x.html", "1a", "a1", "-", ".", "/", "ab", "b", "9", "12", "é", "\xff", "lo", "log"}
 
 // instantiate replaces every {…} token of a (well-formed) pattern by a value.
 func (g *G) instantiate(p string, vals []string) string {
@@ -579,9 +579,41 @@ func randBytes(g *G, n int) string {
 	return string(b)
 }
 
+// ambiguityFamily registers routes that differ in parameter names only at one position but diverge later, then
+// keeps registering further methods on each of them and true name-only variants (which must be rejected).
+func (g *G) ambiguityFamily(rid int) {
+	g.routerLine(rid, routerOpt{name: "amb" + strconv.Itoa(rid), icpt: icptTable})
+	n1, n2 := g.pick([]string{"id", "a", "uid"}), g.pick([]string{"uid2", "b", "x"})
+	mid := g.pick([]string{"/a/", "/", "-", "/log/"})
+	tok2 := g.pick([]string{"{k}", "{k:\\d+}", "{k:digit}"})
+	rule := g.pick([]string{"", ":\\d+", ":word"})
+	p1 := "/p/{" + n1 + rule + "}" + mid + tok2 + "/x"
+	p2 := "/p/{" + n2 + rule + "}" + mid + tok2 + "/y"
+	p3 := "/p/{" + n2 + rule + "}" + mid + tok2 + "/x"   // name-only variant of p1
+	p4 := "/p/{-" + n1 + rule + "}" + mid + tok2 + "/y"  // '-' variant of p2
+	h := 1
+	probe := func() {
+		g.emit("routes %d", rid)
+		for _, p := range []string{p1, p2} {
+			for _, m := range []string{"GET", "POST", "PUT", "OPTIONS"} {
+				g.serveLine("serve", rid, m, g.instantiate(p, []string{"5", "7"}), "", nil)
+			}
+		}
+	}
+	for _, st := range []struct{ p, m string }{{p1, "GET"}, {p2, "GET"}, {p2, "POST"}, {p1, "POST"}, {p3, "PUT"}, {p4, "PUT"}, {p2, "PUT"}, {p1, "DELETE"}, {p2, "GET"}} {
+		g.emit("handle %d %s %d %%- %s", rid, encB(st.p), h, encL([]string{st.m}))
+		h++
+		probe()
+	}
+}
+
 func streamReject(g *G) { // C17
 	rid := 1
 	for !g.full() {
+		if g.chance(0.4) {
+			g.ambiguityFamily(rid)
+			rid++
+		}
 		g.history(rid, histCfg{useIc: g.chance(0.3), trace: g.chance(0.3), probes: 1, probeAll: true, invalid: 0.5, siblings: g.chance(0.2)}, 6+g.intn(14))
 		rid++
 	}
@@ -791,7 +823,7 @@ func encVersions(vs []string) string {
 	return strings.Join(out, "+")
 }
 
-var hostNames = []string{"example.com", "api.example.com", "API.Example.com", "a.example.com:8080", "example.com:", "example.com:x", "[::1]", "[::1]:80", "b.example.com", "x.y.example.com", "", "*", "localhost", "EXAMPLE.COM", "example.com:80:", ":80", "[", "]", "[]"}
+var hostNames = []string{"[FE80::1]", "[fe80::1]:8080", "[2001:DB8::A]:443", "[2001:db8::a]", "FE80::1", "example.com", "api.example.com", "API.Example.com", "a.example.com:8080", "example.com:", "example.com:x", "[::1]", "[::1]:80", "b.example.com", "x.y.example.com", "", "*", "localhost", "EXAMPLE.COM", "example.com:80:", ":80", "[", "]", "[]"}
 var acceptValues = []string{"", "application/json; version=1", "application/json;version=2", "text/html; v=1", "application/json; version=\"1\"", "bad;;", "application/json", "application/json; VERSION=1", "*/*; version=2.0", "a/b; ver=1; version=2"}
 
 func (g *G) groupRequests(gid int, n int) {
@@ -863,7 +895,7 @@ func streamGroup(g *G) { // C13
 
 func streamHosts(g *G) { // C14
 	hid := 1
-	doms := []string{"example.com", "API.example.com", "b.example.com", "c.example.com", "d.example.com", "e.example.com", "f.example.com", "{sub}.example.com", "{sub:\\d+}.example.net", "{w:word}.example.org", "localhost", "::1", "{a}.{b}.example.io", "x.example.com", "{-skip}.internal"}
+	doms := []string{"example.com", "API.example.com", "b.example.com", "c.example.com", "d.example.com", "e.example.com", "f.example.com", "{sub}.example.com", "{sub:\\d+}.example.net", "{w:word}.example.org", "localhost", "::1", "fe80::1", "2001:DB8::A", "{a}.{b}.example.io", "x.example.com", "{-skip}.internal"}
 	for !g.full() {
 		var initial []string
 		for i := 0; i < g.intn(9); i++ {
